@@ -211,7 +211,15 @@ def make_overlay(prop, hfs, replay_override=None):
         if replay_override and path in replay_override:
             path = replay_override[path]
         modname = "verif_kani_" + re.sub(r"[^a-z0-9]", "_", os.path.basename(hf.path)[:-3].lower())
-        appended.setdefault(hf.target, []).append(f'#[cfg(kani)] #[path = "{path}"] mod {modname};')
+        # a harness file that needs cargo features (`//@ cargo_args: --features a,b`) is only compiled in the
+        # invocation that enables them; the other harness files of the crate build without it
+        feats = []
+        ca = hf.cargo_args or []
+        for i, x in enumerate(ca):
+            if x == "--features" and i + 1 < len(ca):
+                feats += [f for f in re.split(r"[ ,]+", ca[i + 1]) if f]
+        cond = "kani" if not feats else "all(kani, " + ", ".join(f'feature = "{f}"' for f in feats) + ")"
+        appended.setdefault(hf.target, []).append(f'#[cfg({cond})] #[path = "{path}"] mod {modname};')
         for tgt, text in hf.extra_inject:
             appended.setdefault(tgt, []).append(text)
     for tgt, lines in appended.items():
